@@ -57,6 +57,7 @@ func EngErr(err error) string {
 
 // EngineRunner executes engine-layer script lines ("E ...") on the real engine.
 type EngineRunner struct {
+	batchStartSize int64         // logical size of the active file when the open batch began
 	stuck      bool              // a call of the engine never returned (watchdog): the handle is abandoned at the next close
 	Root       string            // scratch root of this scenario
 	dirs       map[string]string // logical directory name -> path
@@ -861,6 +862,35 @@ func (r *EngineRunner) Exec(f []string) (res string) {
 			}
 			return fmt.Sprintf("ok %d", vlen) + r.takeEvents(false)
 		}
+	case "bpadto":
+		// E bpadto <d> <key> <seed>: the first Put of the open batch, its value length chosen so that - when the batch is flushed
+		// into the active file as it stood when the batch began - the record ends exactly <d> bytes before the next block
+		// boundary: the next record of the same flush starts in the unusable tail of a block.  The length is reported
+		// (an input of the model).
+		{
+			d := atoi(f[2])
+			k, _ := ParseTok(f[3])
+			size := int(r.batchStartSize)
+			vlen := -1
+			for v := 1; v < 2*bs; v++ {
+				st := &fileState{off: size % bs}
+				st.advance(encLen(len(k), v, r.batch.VerifBatchID()))
+				if (bs-st.off%bs)%bs == d%bs && st.off%bs != 0 {
+					vlen = v
+					break
+				}
+			}
+			if vlen < 0 {
+				return "err nolength"
+			}
+			v := GenBytes(vlen, atou(f[4]))
+			err := r.batch.Put(k, v)
+			r.ref.bput(r, k, v, err)
+			if err != nil {
+				return "err " + EngErr(err) + r.takeEvents(false)
+			}
+			return fmt.Sprintf("ok %d", vlen) + r.takeEvents(false)
+		}
 	case "bold":
 		// E bold p|d|g|c <key> <val>: a call through the handle of the PREVIOUS (committed) batch while a newer batch
 		// may be open: it must be rejected as committed and change nothing (the handle of a committed batch
@@ -894,6 +924,7 @@ func (r *EngineRunner) Exec(f []string) (res string) {
 		}
 		r.batchSync = f[2] == "1"
 		r.so.opKind = "batch"
+		r.batchStartSize = r.db.VerifActiveSize()
 		r.batch = r.db.NewBatch(kv.BatchOptions{Sync: f[2] == "1"})
 		r.lastBatch = time.Now()
 		r.ref.batchBegin(f[2] == "1")
